@@ -316,6 +316,13 @@ class Rewriter:
             else:
                 newp.append(p)
         s = s[:po + 1] + ','.join(newp) + s[pc:]
+        # R11b method cuts get the object as an explicit first parameter
+        if self.members:
+            po = s.index('(')
+            pc = match_close(s, po)
+            inner = s[po + 1:pc].strip()
+            s = s[:po + 1] + 'SELF_T * self' + (', ' + inner if inner and inner != 'void' else '') + s[pc:]
+            self._hit('R11b')
         # R16 references in parameter lists become pointers only where a spec rule asked; default-args dropped
         po = s.index('(')
         pc = match_close(s, po)
